@@ -519,6 +519,20 @@ class _CB(flow.DefaultCB):
             return ('num', x * y)
         if isinstance(e, ast.Call) and isinstance(e.func, ast.Name) and e.func.id in ('max', 'sum', 'any', 'min', 'all') and e.args:
             elts = e.args if len(e.args) > 1 else (e.args[0].elts if isinstance(e.args[0], (ast.Tuple, ast.List)) else None)
+            if elts is None and len(e.args) == 1:
+                # a whole pair of the module's geometry: its two entries
+                try:
+                    v0, _ = self.ev(e.args[0], s, quiet=True)
+                except Exception:  # noqa: BLE001
+                    v0 = None
+                if isinstance(v0, ObjV) and f'{v0.tag}[0]' in nf and f'{v0.tag}[1]' in nf:
+                    vs0 = [nf[f'{v0.tag}[0]'], nf[f'{v0.tag}[1]']]
+                    nz0 = [x for x in vs0 if x != 0]
+                    if e.func.id in ('max', 'sum', 'any'):
+                        r0 = 0 if not nz0 else 'P'
+                    else:
+                        r0 = 0 if len(nz0) < 2 else 'P'
+                    return ('bool', r0 != 0) if e.func.id in ('any', 'all') else ('num', r0)
             if elts is None:
                 return None
             vs = [self._absnum(x, s, nf) for x in elts]
